@@ -82,7 +82,7 @@ KINDS = ['dir', 'nested', 'file', 'missing', 'syntax-error', 'nested']
 
 
 def gen_input(g, sb_dir, kind):
-    base = os.path.join(sb_dir, g.choice(['src', 'src dir', 'sr$c'])); os.makedirs(base, exist_ok=True)
+    base = os.path.join(sb_dir, g.choice(['src', 'src dir', 'sr$c', 'rel:2.0', 'a:b c'])); os.makedirs(base, exist_ok=True)      # ':' is an ordinary character of a POSIX path
     if kind in ('dir', 'nested'):
         ch = T.gen_dir(g, 0, max_depth=2 if kind == 'nested' else 0, want_cmake=True)
         p = os.path.join(base, g.choice(['proj', 'my.mod'])); T.materialize(p, ch); return kind, p, True
@@ -116,7 +116,7 @@ def cmake_suite(seed, count, out, drv, budget_s=None, only=None):
             out.sample(dict(suite='cmake', input_kind=kind, extra=extra))
             # (a) recorder: argv as CMake builds it vs the model
             r_exe, log = recorder(sb.dir)
-            outa = os.path.join(sb.dir, g.choice(['out_a', 'out a']))
+            outa = os.path.join(sb.dir, g.choice(['out_a', 'out a', 'api:v2']))
             rc, txt = run_cmake(sb.dir, r_exe, inp, outa, extra, mode=mode, ctx=ctx)
             out.traces_validated += 1
             argv = json.load(open(log)) if os.path.exists(log) else None
